@@ -271,6 +271,8 @@ def run(ctx):
     ctx.rule('C03.R5', 'TypeHint.is_bearable / die_if_unbearable call the procedural functions with self._hint and '
              'the passed conf; is_bearable and die_if_unbearable each pass their own memo table together with '
              'their own code factory to make_func_checker')
+    from .c19 import typehint_cache
+    typehint_cache(ctx, 'C03.R5')
     sm = ctx.repo.mod('beartype.door._cls.doorsuper')
     th = sm.defs.get('TypeHint')
     ctx.require(isinstance(th, ast.ClassDef), 'anchor vanished: TypeHint')
